@@ -53,6 +53,29 @@ class PathEnd(Exception):
 
 # --------------------------------------------------------------------------
 
+_quant_cache = {}
+
+
+def has_quantifier(t):
+    i = t.get_id()
+    r = _quant_cache.get(i)
+    if r is None:
+        r = False
+        stack, seen = [t], set()
+        while stack:
+            x = stack.pop()
+            xi = x.get_id()
+            if xi in seen:
+                continue
+            seen.add(xi)
+            if z3.is_quantifier(x):
+                r = True
+                break
+            stack.extend(x.children())
+        _quant_cache[i] = r
+    return r
+
+
 class Obligation:
     def __init__(self, name, kind, hyps, goal, path, info=None, expect="unsat"):
         self.name = name
@@ -183,7 +206,11 @@ class Ctx:
         del ids[k:]
         for c in self.pc[k:]:
             inc.push()
-            inc.add(c)
+            # quantified facts (loop invariants, array axioms) are left out of
+            # feasibility queries: this over-approximates feasibility (sound --
+            # obligations always carry the full path condition)
+            if not has_quantifier(c):
+                inc.add(c)
             ids.append(c.get_id())
         inc.push()
         for c in extra:
@@ -195,7 +222,8 @@ class Ctx:
         s = z3.Solver()
         s.set("timeout", timeout_ms or self.branch_timeout_ms)
         for c in self.pc:
-            s.add(c)
+            if not has_quantifier(c):
+                s.add(c)
         for c in extra:
             s.add(c)
         return s.check()
@@ -216,6 +244,8 @@ class Ctx:
                 return None
         # conjuncts added since the model was taken must hold in it
         for c in self.pc[len(ids):]:
+            if has_quantifier(c):
+                continue
             try:
                 if not z3.is_true(mod.eval(c, model_completion=True)):
                     return None
@@ -291,7 +321,8 @@ class Ctx:
         s = z3.Solver()
         s.set("timeout", self.branch_timeout_ms)
         for c in self.pc:
-            s.add(c)
+            if not has_quantifier(c):
+                s.add(c)
         s.add(cond)
         if s.check() == z3.sat:
             self._model = (s.model(), [c.get_id() for c in self.pc])
